@@ -152,6 +152,34 @@ func TestVerif_C07(t *testing.T) {
 			return
 		}
 	}
+	if vfOnlySub("huge") && !vfReplayMode() && vfShard() < 2 {
+		n := []int{70000, 1200000}[vfShard()]
+		for _, kind := range []string{"filler", "csv", "json-array", "html-giant-comment"} {
+			base := vfBig(kind, n)
+			for _, pos := range []int{len(base) - 1, len(base) / 2, 65536, 65537, 1 << 20} {
+				if pos >= len(base) {
+					continue
+				}
+				for _, v := range []byte{0x00, 0x1a, 0x0b} {
+					x := append([]byte(nil), base...)
+					x[pos] = v
+					for _, lim := range []uint32{0, uint32(pos), uint32(pos + 1), uint32(len(x))} {
+						c := c07Case{X: x, Limit: lim, Reader: lim != 0 && pos%2 == 0, PrevLimit: 16}
+						r := c07Check(c)
+						r.Labels = append(r.Labels, "huge")
+						vfStats.record(r, func() any { return map[string]any{"sub": "huge", "kind": kind, "len": len(x), "binary_byte_at": pos, "limit": lim} })
+						if r.Err != nil {
+							vfEnumFail(t, "C07", "gen", c07Case{X: x[max(0, pos-40):min(len(x), pos+40)], Limit: 0}, fmt.Errorf("%s of %d bytes with byte %#x at offset %d, limit %d: %v", kind, len(x), v, pos, lim, r.Err))
+							return
+						}
+					}
+				}
+			}
+		}
+	}
+	if t.Failed() {
+		return
+	}
 	if vfOnlySub("enum") {
 		vfRun(t, vfSub[c07Case]{Prop: "C07", Name: "enum", Check: c07Check})
 		if !vfReplayMode() && !t.Failed() {
